@@ -158,7 +158,7 @@ PROPS = {
         "level_text": "Proved on the model for every engine state: every firing produced by fire_all is for a rule whose condition is true of the matched fact's contents at that moment (and only live facts are "
                 "matched); handles are issued in increasing order. The property's sentences - firings only for live satisfying facts, retracted facts never fire, exactly-once firing of no-loop rules under inert actions, "
                 "agreement of the three working-memory views, handle freshness - are the Coq-defined monitor Incremental.ok evaluated on the implementation's own observations (it does not use the propagation model), "
-                "and the model is compared with the code per op. Added theorems (Proofs/IncrementalViewsProofs.v): in every reachable state of the model the three working-memory views agree (in the full listing iff found by its handle iff listed under its type, and then not retracted), a retracted fact is in none of them, handles are pairwise distinct and below the next handle (never reused) - invariant through insert / update / retract / fire_all (with its action effects) / reset.",
+                "and the model is compared with the code per op. Exactly-once is now a theorem too (Proofs/IncrementalOnceProofs.v): for rule sets of no-loop rules with inert actions and distinct names and every history of insert / update / retract / fire_all (no reset) whose fire_alls fit the iteration bound read from the source (rules + pending activations <= max_iterations), a fire_all fires no rule twice and fires exactly the rules not fired before that some live fact satisfies at that moment (first fire_all: exactly the satisfied rules), working memory unchanged - proved through the agenda model (pop loop, stale activations skipped, re-propagation after each firing) with a potential argument for the bound. Added theorems (Proofs/IncrementalViewsProofs.v): in every reachable state of the model the three working-memory views agree (in the full listing iff found by its handle iff listed under its type, and then not retracted), a retracted fact is in none of them, handles are pairwise distinct and below the next handle (never reused) - invariant through insert / update / retract / fire_all (with its action effects) / reset.",
         "level_note": "Trusted: Coq kernel; model of propagation.rs/working_memory.rs after fixes a666833 and 26cddab; HashSet iteration orders modelled as ascending (histories are generated so that outcomes do not depend on them); "
                 "custom action closures mirror what GrlReteLoader actions do to working memory; harness; extraction. Multi-type joins, accumulate, multifield nodes are outside 'single-type rule sets'. Axioms: none.",
         "trusted_base": ["std HashSet/HashMap iteration order is unspecified: generated histories avoid order-dependent outcomes"],
@@ -245,10 +245,10 @@ PROPS = {
                 "'owns or imports with matching pattern from an exporting module'. Acyclicity (Proofs/ModuleAcyclicProofs.v): after every operation sequence no module reaches itself through declared "
                 "imports; the separate import_graph is exactly the set of declared imports in every reachable state; the fuelled breadth-first search of detect_cycle is a correct reachability test on "
                 "any graph (the fuel S(graph_size) provably never runs out: a queue-plus-unvisited measure), so an import is refused exactly when a module is missing or it would close a cycle. "
-                "get_visible_rules is covered by the Coq-defined executable specification Module.ok evaluated on the real ModuleManager after every op (it also re-checks acyclicity and every acceptance/refusal).",
+                "Listing (Proofs/ModuleListingProofs.v, after repair 8e1d5ba): in every reachable state get_visible_rules of an existing module never fails and lists exactly the rules that exist in some module and that is_rule_visible reports visible (own, exported by an imported module, or re-exported by it). "
+                "The Coq-defined executable specification Module.ok is evaluated on the real ModuleManager after every op (visibility matrix, listing, acyclicity, every acceptance/refusal).",
         "level_note": "Trusted: Coq kernel; model of module.rs after the delete_module fix (rules only; templates/salience/focus not modelled); harness; extraction. 'exports' follows the code's "
-                "definition (own rule matching the export list, or any name matching a re-export pattern). get_visible_rules is checked by the monitor only. "
-                "Known finding C18-listing-misses-reexports (monitor class 2). Axioms: none.",
+                "definition (own rule matching the export list, or any name matching a re-export pattern). Former known finding C18-listing-misses-reexports repaired (8e1d5ba). Axioms: none.",
         "trusted_base": [],
         "assumptions": ["module and rule names are arbitrary strings; patterns as implemented by pattern_matches"],
     },
